@@ -20,8 +20,16 @@ def sites(path):
     src = open(path).read().split("\n")
     out = []
     in_comment = False
+    null_block = False
     for i, line in enumerate(src):
         s = line.strip()
+        # NULL-argument guards are outside every property's scope ("valid pointers"): skip the guard and its block
+        if re.match(r"^(else )?if \((\(?NULL == [\w>\-]+\)?( \|\| )?)+\)", s) or re.match(r"^if \(NULL == ", s):
+            null_block = "{" in s and "}" not in s
+            continue
+        if null_block:
+            if s.startswith("}"): null_block = False
+            continue
         if in_comment:
             if "*/" in s: in_comment = False
             continue
